@@ -165,7 +165,7 @@ def render_thetas(layout, per_record=3, expand=False):
 
 OMEGA_ITEM = st.fixed_dictionaries(
     dict(
-        kind=st.integers(0, 8),  # 0-3 diagonal forms, 4-7 block forms, 8 same
+        kind=st.integers(0, 10),  # 0-3 diagonal forms, 4-7 block forms, 8-10 same (needs a preceding block)
         n=st.integers(1, 3),
         d=st.lists(st.integers(0, 7), min_size=3, max_size=3),
         o=st.lists(st.integers(0, 8), min_size=3, max_size=3),
@@ -348,13 +348,13 @@ def render_omegas(layout, record='OMEGA', max_total=5, expand=False):
     for it in (layout if isinstance(layout, list) else [])[:4]:
         if not isinstance(it, dict):
             continue
-        kind = _i(it, 'kind') % 9
+        kind = _i(it, 'kind') % 11
         room = max_total - total
         if room <= 0:
             break
         if kind <= 3:
             r = diag_record(it, total + 1, min(3, room), pfx, expand)
-        elif kind == 8:
+        elif kind >= 8:
             if prev_block is None:
                 continue
             r = same_record(it, prev_block)
